@@ -22,6 +22,8 @@ type SpecEnv struct {
 	inQuant int
 	guard string
 	results []SV
+	loopEntry *State // set while a loop invariant is evaluated: the state on entry to that loop (builtin loopentry(E))
+	visitedKey, visitedSort string // set while an invariant of a map-range loop is evaluated: its visited-set component (ext_maprange.go)
 }
 
 type specErr struct{ msg string }
@@ -905,6 +907,9 @@ func (e *SpecEnv) evalCall(x *ECall) SV {
 					}
 				}
 			}
+			if v, ok := e.extBuiltin(id.Name, x); ok { // builtins added by extension files (ext_*.go)
+				return v
+			}
 			// spec function
 			if sf := e.lookupSpecFn(id.Name); sf != nil {
 				return e.applySpecFn(sf, x.Args)
@@ -1056,9 +1061,10 @@ func (e *SpecEnv) applySpecFn(sf *SpecFn, argExprs []Expr) SV {
 	if sf.Uninterp {
 		ret := n.resolveType(sf.Ret)
 		var sorts, ts []string
-		for _, a := range args {
-			sorts = append(sorts, e.fc.tc.sortOfSV(a))
-			ts = append(ts, a.t)
+		for i, a := range args {
+			ss, tt := e.uninterpArg(a, n.resolveType(sf.Params[i].Type)) // slices of leaf elements: (block content, offset, length), see ext_c34.go
+			sorts = append(sorts, ss...)
+			ts = append(ts, tt...)
 		}
 		name := "sf_" + mangle(sf.Pkg+"_"+sf.Name)
 		e.fc.eng.declareUF(e.fc, name, sorts, e.fc.tc.sortOf(ret))
@@ -1160,6 +1166,10 @@ func (e *SpecEnv) applyPureKey(key string, sig *types.Signature, args []SV, fn *
 			r.typ = rt
 		}
 		return r
+	}
+	if t, ok := fc.pureHeapTerm(key, e.cur, args, rt); ok { // pointer/slice arguments: the value depends on the heap (pureheap.go)
+		fc.calleesUsed[key] = true
+		return SV{t: t, typ: rt}
 	}
 	var sorts, ts []string
 	for _, a := range args {
